@@ -24,6 +24,8 @@ type genFamily struct {
 	sep        string
 	items      []string
 	deep       [][6]string // head, open, sep, core, close, tail: deeply nested items (see harness deepShape)
+	values      bool   // semantic-value parser without a listener: actions report through zzEvent
+	parseMethod string // name of the entry point (default Parse)
 	// knobs this family may vary
 	knobs []string
 	// option combinations that are always part of a batch (before the random ones)
@@ -230,6 +232,65 @@ IsNums: '[' '-'* num ;
 IsTyped: '[' '-'* (num separator ',')+ ':' ;
 `
 
+// semantic values next to listener events, two %input nonterminals (one of them no-eoi),
+// error recovery: the parse returns a value that must equal the reference's
+const famValues = `language %NAME%(go);
+
+lang = "%NAME%"
+package = "github.com/inspirer/textmapper/zzverif/gen/%NAME%"
+eventBased = true
+cancellable = true
+%OPTS%
+
+:: lexer
+
+ws: /[ \t\r\n]+/ (space)
+comment: /#[^\n]*/ (space)
+num {int}: /[0-9]+/  { $$ = len(l.Text()) }
+id: /[a-z]+/
+'+': /\+/
+'*': /\*/
+'(': /\(/
+')': /\)/
+',': /,/
+';': /;/
+'=': /=/
+error:
+
+:: parser
+
+%input File, Expr no-eoi;
+
+%inject comment -> Comment;
+
+%left '+';
+%left '*';
+
+File {int} -> File:
+    Stmt            { $$ = $Stmt }
+  | File Stmt       { $$ = $File*31 + $Stmt }
+;
+
+Stmt {int} -> Stmt:
+    Expr ';'                { $$ = $Expr }         -> ExprStmt
+  | id '=' Expr ';'         { $$ = $Expr + 7 }     -> Assign
+  | error ';'               { $$ = -1 }            -> Broken
+;
+
+Expr {int} -> Expr:
+    Expr '+' Expr           { $$ = $0 + $2 }       -> Add
+  | Expr '*' Expr           { $$ = $0 * $2 }       -> Mul
+  | '(' Expr ')'            { $$ = $Expr }         -> Paren
+  | num                     { $$ = $num }          -> Num
+  | id '(' Args ')'         { $$ = $Args }         -> Call
+;
+
+Args {int} -> Args:
+    Expr                    { $$ = 1 }
+  | Args ',' Expr           { $$ = $Args + 1 }
+;
+`
+
 var genFamilies = []*genFamily{
 	{
 		name: "stmts", text: famStmts, recovery: true, space: []string{"COMMENT", "INVALID_TOKEN"},
@@ -245,6 +306,19 @@ var genFamilies = []*genFamily{
 		},
 		knobs:   []string{"optimizeTables", "fixWhitespace", "tokenLine", "tokenStream", "cancellableFetch"},
 		presets: [][]string{{"tokenLine"}, {"tokenStream", "cancellableFetch", "tokenLine"}, {"optimizeTables", "fixWhitespace", "cancellableFetch"}},
+	},
+	{
+		name: "values", text: famValues, recovery: true, values: true, parseMethod: "ParseFile", space: []string{"COMMENT"},
+		sep: "\n",
+		items: []string{
+			"1;", "1 + 2 * 3;", "(1 + 2) * (3 + 4);", "a = 5;", "b = f(1, 2, 3) + 1;", "f(g(1), 2);", "((((7))));", "1 * 2 * 3 + 4 * 5 + 6;",
+		},
+		deep: [][6]string{
+			{"", "(", " # c\n", "1", ")", ";"},
+			{"q = 1", " + 2", "", "", "", ";"},
+		},
+		knobs:   []string{"optimizeTables", "cancellableFetch", "tokenLine"},
+		presets: [][]string{{"tokenLine"}, {"optimizeTables", "cancellableFetch", "tokenLine"}},
 	},
 	{
 		name: "lookahead", text: famLookahead, lookaheads: true,
@@ -284,10 +358,12 @@ package {{.Name}}
 
 import (
 	"context"
+{{- if .Values}}
+	"fmt"
+{{- end}}
 
 	"github.com/inspirer/textmapper/zzverif/gen/{{.Name}}/token"
 )
-
 // ZZSession keeps one Parser (and lexer / token stream) object for several parses.
 type ZZSession struct {
 	p Parser
@@ -299,7 +375,14 @@ type ZZSession struct {
 }
 
 // Parse drives the generated parser through its public API.
-func (z *ZZSession) Parse(ctx context.Context, in string, ev func(t, flags, off, end int), eh func(line, off, end int) bool) error {
+func (z *ZZSession) Parse(ctx context.Context, in string, ev func(t, flags, off, end int), eh func(line, off, end int) bool) (string, error) {
+{{- if .Values}}
+	l := func(t NodeType, off, end int) { ev(int(t), 0, off, end) }
+	z.lx.Init(in)
+	z.p.Init(func(se SyntaxError) bool { return eh({{if .TokenLine}}se.Line{{else}}0{{end}}, se.Offset, se.Endoffset) }, l)
+	v, err := z.p.{{.ParseMethod}}(ctx, &z.lx)
+	return fmt.Sprint(v), err
+{{- else}}
 	l := func(t NodeType, off, end int) { ev(int(t), 0, off, end) }
 {{- if .TokenStream}}
 	z.s.Init(in, l)
@@ -311,17 +394,18 @@ func (z *ZZSession) Parse(ctx context.Context, in string, ev func(t, flags, off,
 {{- else}}
 	z.p.Init(l)
 {{- end}}
-	return z.p.Parse(ctx, {{if .TokenStream}}&z.s{{else}}&z.lx{{end}})
+	return "", z.p.{{.ParseMethod}}(ctx, {{if .TokenStream}}&z.s{{else}}&z.lx{{end}})
+{{- end}}
 }
 
 // ZZNewSession returns a parse function bound to one reusable set of objects.
-func ZZNewSession() func(ctx context.Context, in string, ev func(t, flags, off, end int), eh func(line, off, end int) bool) error {
+func ZZNewSession() func(ctx context.Context, in string, ev func(t, flags, off, end int), eh func(line, off, end int) bool) (string, error) {
 	z := &ZZSession{}
 	return z.Parse
 }
 
 // ZZParse parses with fresh objects.
-func ZZParse(ctx context.Context, in string, ev func(t, flags, off, end int), eh func(line, off, end int) bool) error {
+func ZZParse(ctx context.Context, in string, ev func(t, flags, off, end int), eh func(line, off, end int) bool) (string, error) {
 	var z ZZSession
 	return z.Parse(ctx, in, ev, eh)
 }
@@ -346,6 +430,8 @@ func ZZTokenEnds(in string) []int {
 `))
 
 type genInstance struct {
+	Values      bool
+	ParseMethod string
 	Name        string
 	Family      *genFamily
 	Opts        map[string]bool
@@ -392,7 +478,10 @@ func generateBatch(cfg *config, ov *overlay, info map[string]any) error {
 	var skipped []string
 	for i, pl := range plans {
 		fam := pl.fam
-		in := &genInstance{Name: fmt.Sprintf("g%02d", i+1), Family: fam, Opts: map[string]bool{}, Recovery: fam.recovery, TokenLine: true}
+		in := &genInstance{Name: fmt.Sprintf("g%02d", i+1), Family: fam, Opts: map[string]bool{}, Recovery: fam.recovery, TokenLine: true, Values: fam.values, ParseMethod: "Parse"}
+		if fam.parseMethod != "" {
+			in.ParseMethod = fam.parseMethod
+		}
 		var opts []string
 		var on []string
 		for _, k := range fam.knobs {
